@@ -21,6 +21,7 @@ Fixpoint canon_in (buf : bytes) (v : prim) : bytes :=
   | PBool false => [102]
   | PInt z => 105 :: dec_of_Z z
   | PReal t => 68 :: t ++ [59]
+  | PNum e t => 69 :: e ++ [126] ++ t ++ [59]
   | PName s => 78 :: hex_of s ++ [59]
   | PStr s => 83 :: hex_of s ++ [59]
   | PRef i g => 82 :: dec_of_N i ++ [44] ++ dec_of_N g
@@ -99,6 +100,7 @@ Fixpoint read_canon (fuel : nat) (l : bytes) : res (prim * bytes) :=
       else if c =? 102 then Ok (PBool false, t)
       else if c =? 105 then let '(a, r) := span_num t in Ok (PInt (Z_of_dec a), r)
       else if c =? 68 then let '(a, r) := span_until 59 t in Ok (PReal a, r)
+      else if c =? 69 then let '(a, r) := span_until 126 t in let '(b, r2) := span_until 59 r in Ok (PNum a b, r2)
       else if c =? 78 then let '(a, r) := unhex t in match r with x :: r' => Ok (PName a, r') | [] => Err E_CANON end
       else if c =? 83 then let '(a, r) := unhex t in match r with x :: r' => Ok (PStr a, r') | [] => Err E_CANON end
       else if c =? 82 then
